@@ -4,8 +4,9 @@ from common import *
 
 ID = "C12"
 GEN = ["Units"]
-THEOREMS = ["C12_neq", "C12_refl", "C12_refl_number", "C12_sym", "C12_sym_number_partial", "C12_refuted_sym",
-            "C12_trichotomy", "C12_refuted_trichotomy_calc", "C12_refuted_trichotomy_unitless"]
+THEOREMS = ["C12_neq", "C12_refl", "C12_refl_number", "C12_number_eq_sym", "C12_numeric_eq_sym", "C12_sym",
+            "C12_sym_general", "C12_refuted_sym_two_units", "C12_trichotomy", "C12_refuted_trichotomy_calc",
+            "C12_refuted_trichotomy_unitless"]
 COQ_HEADER = ("From Coq Require Import String List ZArith NArith Bool.\n"
               "From RV Require Import Model.Numeric Model.ValueEq Run.C12.\nImport ListNotations.\n"
               "Local Open Scope string_scope.\nLocal Open Scope Z_scope.")
@@ -19,7 +20,8 @@ EXHAUSTIVE = {"quick": False, "thorough": False}
 TRUSTED = ["Spec/CssUnits.v same_group: which units can be compared",
            "strings are modelled for escape-free text only; colours and function values are outside the model (clauses are still checked on the implementation's answers)",
            "the `calculated` flag of an operand inside a comparison is taken from the operand's syntactic kind (literal / parenthesised arithmetic: true; calc(): false), validated by the correspondence on < and >"]
-ASSUMPTIONS = ["symmetry of Number == itself is not characterised by a proved closed-form input class: C12_sym takes the symmetry of the number pairs as hypothesis (decidable on the inputs); C12_sym_number_partial proves it for bit-equal and for opposite-sign-free exact cases only"]
+ASSUMPTIONS = ["symmetry is proved for map-free values whose numbers have aligned units (same unit set or one unitless); for two DIFFERENT convertible units (each direction converts the other operand, with its own rounding) and for maps (first-match lookup over a non-transitive equality) it is checked on rsass's answers only",
+               "map comparisons involving numbers with two different units are outside the model (the model evaluates the inner comparisons left-to-right, the code right-to-left)"]
 
 
 def bits(x):
@@ -58,7 +60,8 @@ STRS = [("str", "a", False), ("str", "a", True), ("str", "b", False), ("str", "a
         ("str", "ab", False), ("str", "", True)]
 OTHERS = [("other", "red"), ("other", "#f00"), ("other", "rgb(255, 0, 0)"), ("other", "hsl(0, 100%, 50%)"),
           ("other", "blue"), ("other", "rgba(255, 0, 0, 0.5)"), ("other", "get-function(\"abs\")"),
-          ("other", "hwb(0 0% 0%)"), ("other", "rgb(255, 0, 0.00000001)")]
+          ("other", "hwb(0 0% 0%)"), ("other", "rgb(255, 0, 0.00000001)"),
+          ("othernan", "hsl((0/0), 100%, 50%)"), ("othernan", "hwb((0/0) 0% 0%)")]
 ATOMS = [("null",), ("true",), ("false",)]
 
 
@@ -136,7 +139,7 @@ def perturb(rng, v):
         else:
             return ("list", [], 0, False)
         return ("map", kv)
-    if k == "other":
+    if k in ("other", "othernan"):
         return rng.choice(OTHERS)
     return rng.choice(ATOMS)
 
@@ -147,7 +150,7 @@ def text(v, top=True):
         return v[1]
     if k == "str":
         return '"%s"' % v[1] if v[2] else v[1]
-    if k == "other":
+    if k in ("other", "othernan"):
         return v[1]
     if k in ("null", "true", "false"):
         return k
@@ -207,7 +210,10 @@ CORPUS = [(("num", "1", True), ("num", "0.9999999999999998", True)),
           (("other", "red"), ("other", "#f00")), (("other", "red"), ("other", "hsl(0, 100%, 50%)")),
           (("null",), ("null",)), (("true",), ("false",)), (("null",), ("false",)),
           (("num", "0", True), ("num", "(0*-1)", True)),
-          (("num", "3.3em", True), ("num", "3.3ex", True))]
+          (("num", "3.3em", True), ("num", "3.3ex", True)),
+          (("num", "2.54turn", True), ("num", "914.3999999999997deg", True)),
+          (("num", "0.5s", True), ("num", "499.9999999999999ms", True)),
+          (("list", [("num", "0.5s", True)], 2, False), ("list", [("num", "499.9999999999999ms", True)], 2, False))]
 
 
 def gen_cases(ctx, tier):
@@ -225,6 +231,15 @@ def gen_cases(ctx, tier):
         u = rng.choice(UNITS)
         v = u if rng.random() < 0.7 else rng.choice(UNITS)
         cases.append({"a": ("num", num_text(x) + u, True), "b": ("num", num_text(y) + v, True)})
+    # two different convertible units, magnitudes converted in python and perturbed by a few ulps
+    CONV = [("in", "px", 96.0), ("in", "cm", 2.54), ("cm", "mm", 10.0), ("in", "pt", 72.0), ("pc", "px", 16.0),
+            ("s", "ms", 1000.0), ("turn", "deg", 360.0), ("in", "mm", 25.4), ("cm", "px", 96 / 2.54), ("deg", "grad", 10 / 9)]
+    for _ in range(250 if tier == "quick" else 5000):
+        u, v, f = rng.choice(CONV)
+        x = rng.choice(BASES) * rng.choice([1, 1, 3, 0.37, 7])
+        y = fl(bits(x * f) + rng.randrange(-3, 4))
+        a, b = ("num", num_text(x) + u, True), ("num", num_text(y) + v, True)
+        cases.append({"a": a, "b": b} if rng.random() < 0.5 else {"a": b, "b": a})
     return cases
 
 
@@ -284,6 +299,9 @@ def vterm(v, leaves):
         return f"(VStr {cbytes(v[1])} {cbool(v[2])})", ""
     if k == "other":
         return "VOther", ""
+    if k == "othernan":
+        # a colour with a NaN channel: outside the model, and not NaN-free (reflexivity is not demanded)
+        return f"(VList [VOther; VNum (num_of {cz(0x7FF8000000000000)} \"\") true] 1 false)", ""
     if k == "null":
         return "VNull", ""
     if k == "true":
@@ -296,7 +314,7 @@ def vterm(v, leaves):
     if k == "map":
         ks = [vterm(a, leaves)[0] for a, _ in v[1]]
         vs = [vterm(b, leaves)[0] for _, b in v[1]]
-        return f"(VMap {clist(ks)} {clist(vs)})", ""
+        return "(VMap " + clist([f"({k}, {x})" for k, x in zip(ks, vs)]) + ")", ""
     raise ValueError(v)
 
 
@@ -311,7 +329,7 @@ def coq_term(c, io):
     return (f"(mkCase {ta} {tb} {cstring(ua)} {cstring(ub)} " + " ".join(ob(o) for o in io[:6]) + ")")
 
 
-K = {0: None, 1: "known_C12_K1_number_eq_asymmetric", 2: "known_C12_K2_calc_flag", 3: "known_C12_K3_unitless_vs_unit"}
+K = {0: None, 2: "known_C12_K2_calc_flag", 3: "known_C12_K3_unitless_vs_unit", 4: "known_C12_K4_two_units_asymmetric"}
 
 
 def show(c):
@@ -323,10 +341,10 @@ def judge(c, io, r):
     a, b = norm(c)
     if r is None:
         return {"corr": None, "clauses": [], "nontrivial": False, "tags": ["skipped"], "show": show(c)}
-    corr, sym, k1, neg, refl, tri, k23 = r
+    corr, sym, k4, neg, refl, tri, k23 = r
     return {
         "corr": None if corr == 2 else (corr == 1),
-        "clauses": [("symmetry", sym == 1, K[1] if k1 else None), ("negation", neg == 1, None),
+        "clauses": [("symmetry", sym == 1, K[k4]), ("negation", neg == 1, None),
                     ("reflexivity", refl == 1, None), ("trichotomy", tri == 1, K[k23])],
         "nontrivial": a[0] == b[0],
         "tags": [a[0], "same-kind" if a[0] == b[0] else "mixed"],
@@ -334,12 +352,14 @@ def judge(c, io, r):
     }
 
 
-LEVEL_TEXT = ("proof: css::Value equality (numbers with the relative-epsilon test and partial_cmp fallback, escape-free "
-              "strings, lists, maps, booleans, null) modelled in Gallina; `!=` is the negation (all values); every "
-              "NaN-free modelled value equals itself (structural induction, Flocq compare reflexivity); equality is "
-              "symmetric whenever the number pairs involved are (induction; the asymmetry of Number::eq is the only "
-              "source, witness 1 vs 0.9999999999999998); trichotomy of <,==,> for comparable numbers with equal "
-              "calculated flags (case analysis), refuted for differing flags and for unitless-vs-unit")
+LEVEL_TEXT = ("proof: css::Value equality (numbers with the symmetric relative-epsilon test and partial_cmp fallback, "
+              "escape-free strings, lists, maps, booleans, null) modelled in Gallina; `!=` is the negation (all values); "
+              "Number::eq is symmetric for ALL pairs of doubles (Flocq: Bminus_correct, round_NE_opp, B2R_Bsign_inj, "
+              "Bcompare_swap); Numeric equality is symmetric for aligned units; every map-free value pair with aligned "
+              "units compares symmetrically (structural induction); every NaN-free map-free value, and every map with "
+              "pairwise distinct keys, equals itself; trichotomy of <,==,> for comparable numbers with equal calculated "
+              "flags, refuted for differing flags and for unitless-vs-unit")
 LEVEL_NOTE = ("trusted: Coq kernel+vm_compute, Flocq, harness, rs2v unit tables, Spec/CssUnits.v; colours/functions/escaped "
-              "strings only checked on the implementation's answers; known findings F17, F18, F19")
+              "strings only checked on the implementation's answers; symmetry for two different convertible units and for maps only "
+              "explored; known findings F18, F19, F31 (F17 fixed in 5445670)")
 TECHNIQUE = "Coq proof (structural induction with a nested-list principle, case analysis) + differential correspondence"
